@@ -1,3 +1,147 @@
-(* C11 — property theorems only. *)
-From JV Require Import Lib.Base Model.Ns.
-Example placeholder_true : True. Proof. exact I. Qed.
+(* C11 — property theorems only. Each is closed by `exact` of a lemma proved in Proofs/NsProofs.v,
+   or by kernel evaluation of a closed witness. *)
+From JV Require Import Lib.Base Model.Ns Model.NsRun Model.NsGuard Spec.NestedDict Spec.NestedDictRun
+  Gen.C11Clash Proofs.NsProofs.
+
+(* THE REFINEMENT. For ANY clash set and ANY history (no bound on its length, on the depth of keys
+   or on the size of values) of the operations
+       ns[k]=v, setattr(ns,k,v), ns[k], ns.get(k,d), k in ns, del ns[k], ns.pop(k,d),
+       ns.update(v,k,only_unset) for a non-Namespace v, ns.clone(), items/keys/values(branches)
+   starting from the empty Namespace, with
+     - key segments that do not start with U+200B (wf_key; keys the code rejects — a space, an empty
+       segment — are INCLUDED: model and spec must both fail and leave the state alone),
+     - Namespace values whose stored attribute names are what add_clash_mark produces (wf_val),
+     - no addressed path meeting a dict-valued leaf (the guard, class 1 = the known finding),
+   the model of jsonargparse.Namespace answers every step exactly as the nested dictionary does
+   (modulo removing the clash marks from what is shown to the user), and after every step the stored
+   __dict__ tree, seen through abs_d, IS the nested dictionary. *)
+Theorem ns_refines_dict :
+  forall (clash : list str) (ops : list op),
+    hist_class clash ops = 0%N ->
+    Forall2 rel_out (fst (run_model clash [] ops)) (run_spec [] ops).
+Proof. exact ns_refines_dict_proof. Qed.
+Print Assumptions ns_refines_dict.
+
+(* what class 0 says, spelled out *)
+Theorem hist_class_0_means :
+  forall clash ops,
+    hist_class clash ops = 0%N <->
+    snd (run_model clash [] ops) = false /\
+    forallb (wf_op clash) ops = true /\ forallb core_op ops = true.
+Proof. exact hist_class_0_iff. Qed.
+Print Assumptions hist_class_0_means.
+
+(* one step, from ANY well-formed stored tree (not only from states reachable from empty) *)
+Theorem step_commutes :
+  forall clash root o,
+    wf_val clash (VNs root) = true -> wf_op clash o = true -> core_op o = true ->
+    forall ou r, step_model clash root o = (ou, r, false) ->
+      step_spec (abs_d root) o = (unmark_out ou, abs_d r) /\ wf_val clash (VNs r) = true.
+Proof. exact NsProofs.step_commutes. Qed.
+Print Assumptions step_commutes.
+
+(* the same from any well-formed start state, for histories *)
+Theorem ns_refines_dict_from :
+  forall clash ops root,
+    wf_val clash (VNs root) = true ->
+    forallb (wf_op clash) ops = true -> forallb core_op ops = true ->
+    snd (run_model clash root ops) = false ->
+    Forall2 rel_out (fst (run_model clash root ops)) (run_spec (abs_d root) ops).
+Proof. exact run_refines. Qed.
+Print Assumptions ns_refines_dict_from.
+
+(* the judge compares states as values: that is the same comparison *)
+Theorem abs_state_is_unmarked_tree :
+  forall r, node_val (Branch (abs_d r)) = unmark_val (VNs r).
+Proof. exact abs_is_unmark. Qed.
+Print Assumptions abs_state_is_unmarked_tree.
+
+(* items(branches) of any well-formed tree are the items of the nested dictionary (keys()/values()
+   are its projections), for values of any depth *)
+Theorem items_agree :
+  forall clash br root,
+    wf_val clash (VNs root) = true ->
+    map (fun kv => (fst kv, unmark_val (snd kv))) (ns_items br root) = spec_items br (abs_d root).
+Proof. exact items_agree_proof. Qed.
+Print Assumptions items_agree.
+
+(* one dotted string = step by step, on the model itself: ns['a.rest'] is ns['a']['rest'] when
+   ns['a'] is a Namespace and fails when ns['a'] is absent or a non-dict leaf. (When ns['a'] is a
+   dict the two differ: the known finding.) *)
+Theorem dotted_eq_stepwise :
+  forall clash a rest root,
+    mem_N DOT a = false -> mem_N SPACE a = false -> is_empty a = false ->
+    match ns_getitem clash a root with
+    | Ok (VNs d') => ns_getitem clash (a ++ DOT :: rest) root = ns_getitem clash rest d'
+    | Ok (VDict _) => True
+    | _ => ns_getitem clash (a ++ DOT :: rest) root = Fail
+    end.
+Proof. exact dotted_eq_stepwise_proof. Qed.
+Print Assumptions dotted_eq_stepwise.
+
+(* names that coincide with Namespace's own attributes are stored and returned like any other:
+   the user-visible outputs and dictionaries do not depend on the clash set at all *)
+Theorem clash_names_transparent :
+  forall c1 c2 ops,
+    hist_class c1 ops = 0%N -> hist_class c2 ops = 0%N ->
+    Forall2 (fun m1 m2 : out * alist =>
+               unmark_out (fst m1) = unmark_out (fst m2) /\ abs_d (snd m1) = abs_d (snd m2))
+            (fst (run_model c1 [] ops)) (fst (run_model c2 [] ops)).
+Proof. exact clash_names_transparent_proof. Qed.
+Print Assumptions clash_names_transparent.
+
+(* a failing operation leaves the Namespace as it was (update(namespace) has no rollback and is
+   excluded) — no guard, no well-formedness needed *)
+Theorem failed_op_changes_nothing :
+  forall clash root o r md,
+    match o with OUpdNs _ _ _ => False | _ => True end ->
+    step_model clash root o = (OutFail, r, md) -> r = root.
+Proof. exact failed_op_changes_nothing_proof. Qed.
+Print Assumptions failed_op_changes_nothing.
+
+(* ---- the hypotheses are satisfiable by a non-trivial history ----------------------------- *)
+Definition s_a : str := [97]%N.
+Definition s_b : str := [98]%N.
+Definition s_items : str := [105;116;101;109;115]%N.
+Definition s_a_items : str := s_a ++ DOT :: s_items.
+Definition s_a_b_items : str := s_a ++ DOT :: s_b ++ DOT :: s_items.
+Definition s_bad : str := s_a ++ DOT :: DOT :: s_b.
+
+Definition example_history : list op :=
+  [ OSet s_a (VInt 1);                                   (* a = 1 *)
+    OSet s_a_items (VInt 2);                             (* scalar parent replaced by a branch; clash name *)
+    OSetAttr s_items (VNs [(ZW :: s_items, VList [VInt 3])]);   (* a Namespace value with a marked name *)
+    OGet s_a_items; OContains s_a_b_items; OGetD s_b (VInt 9);
+    OUpdV (VStr s_b) (Some s_a_b_items) true;
+    OSet s_bad (VInt 0);                                 (* rejected key: both fail *)
+    OItems true; OPop s_a_items (VInt 9); ODel s_a; OGet s_a; OClone ].
+
+Example hypotheses_satisfiable : hist_class clash_names example_history = 0%N.
+Proof. vm_compute. reflexivity. Qed.
+
+Example example_is_nontrivial :
+  map fst (run_spec [] example_history) =
+  [ OutUnit; OutUnit; OutUnit; OutVal (VInt 2); OutBool false; OutVal (VInt 9); OutUnit; OutFail;
+    OutItems [ (s_a, VNs [(s_items, VInt 2); (s_b, VNs [(s_items, VStr s_b)])]);
+               (s_a_items, VInt 2);
+               (s_a ++ DOT :: s_b, VNs [(s_items, VStr s_b)]);
+               (s_a_b_items, VStr s_b);
+               (s_items, VNs [(s_items, VList [VInt 3])]);
+               (s_items ++ DOT :: s_items, VList [VInt 3]) ];
+    OutVal (VInt 2); OutUnit; OutFail; OutBool true ].
+Proof. vm_compute. reflexivity. Qed.
+
+(* ---- the known finding: outside the guard the refinement FAILS --------------------------- *)
+(* ns['a'] = {'b': 1}; ns['a.b']  — the nested dictionary answers 1, the Namespace raises *)
+Lemma path_through_dict_refuted :
+  exists ops,
+    forallb (wf_op clash_names) ops = true /\ forallb core_op ops = true /\
+    hist_class clash_names ops = 1%N /\
+    ~ Forall2 rel_out (fst (run_model clash_names [] ops)) (run_spec [] ops).
+Proof.
+  exists [OSet s_a (VDict [(s_b, VInt 1)]); OGet (s_a ++ DOT :: s_b)].
+  repeat split; try (vm_compute; reflexivity).
+  intros H. inversion H as [|? ? ? ? _ H2]; subst. inversion H2 as [|? ? ? ? [H3 _] _]; subst.
+  vm_compute in H3. discriminate H3.
+Qed.
+Print Assumptions path_through_dict_refuted.
